@@ -476,7 +476,8 @@ def group_defs(draw, labels=(1, 2, 3, 4, 5, 6, 9, 10, 11, 17, 19, 33, 200), max_
         kind = draw(st.sampled_from(["plain", "plain", "plain", "merge", "merge", "single", "single", "merge_single"]))
         k = 1 if kind in ("single", "merge_single") else draw(st.integers(1, max(1, min(3, len(perm) - (ng - i - 1)))))
         labs, perm = perm[:k], perm[k:]
-        g = {"name": nms[i], "labels": sorted(labs), "kind": kind}
+        # the labels of a group in ascending order, or in the order drawn (a user may list them in any order)
+        g = {"name": nms[i], "labels": sorted(labs) if draw(st.booleans()) else list(labs), "kind": kind}
         if kind in ("plain", "single") and draw(st.integers(0, 3)) == 0:
             # handed to SegmentationClassGroups as a (labels, single_instance) tuple instead of a LabelGroup object
             g["form"] = draw(st.sampled_from(["tuple", "tuple_scalar" if len(labs) == 1 else "tuple"]))
